@@ -18,7 +18,8 @@ RULE = ("Generated from the meaning outward: (type, network, station octets[, IP
         " Also: octet strings with 0xBA 0xBF..0xD0 at every offset and length (port look-alikes); mask lengths above 32 must be refused."
         " Near-miss spellings (hex-digit neighbours, pairs); any-address and negative-host tuples.")
 ASSUMPTIONS = [
-    "route suffixes (@...) and settings.route_aware are outside the statement's list of notations and are not generated",
+    "route suffixes (@...) and settings.route_aware are outside the statement's list of notations: their meaning is not judged; "
+    "addresses carrying a router hint are only held to 'equal implies equal hash' under the default settings",
     "leading-zero dotted octets, ports > 65535 and interface names are outside the domain",
     "for raw 6-octet strings and (ip, port) tuples no mask is denoted, so subnet/host/broadcast are not judged there",
 ]
@@ -251,8 +252,73 @@ def _check_pool(groups):
     return fails[:4]
 
 
+def build_hinted(sp, route):
+    """the spelling with a router hint: route= on the typed constructors, the @ suffix on text"""
+    P = lib()
+    r = build(route)
+    k = sp[0]
+    if k == "str":
+        return P.Address(sp[1] + "@" + (str(route[1]) if route[0] == "int" else "%s:%d" % (route[1], route[2])))
+    if k == "LS":
+        return P.LocalStation(build(sp).addrAddr, route=r)
+    if k == "RS":
+        return P.RemoteStation(sp[1], build(sp).addrAddr, route=r)
+    if k == "RB":
+        return P.RemoteBroadcast(sp[1], route=r)
+    if k == "LB":
+        return P.LocalBroadcast(route=r)
+    if k == "GB":
+        return P.GlobalBroadcast(route=r)
+    return None
+
+
+def check_hinted(groups, routes):
+    """default settings (not route aware): whatever equality makes of a router hint, two addresses that compare equal hash equally
+    and find one another in a dict.  Only that implication is judged for hinted addresses."""
+    import logging
+    fails = []
+    built = []
+    logging.disable(logging.WARNING)       # 'route provided but not route aware' for every text form
+    try:
+        for g in groups:
+            for sp in g:
+                built.append((sp, None, build(sp)))
+                for r in routes:
+                    try:
+                        a = build_hinted(sp, r)
+                    except Exception as err:
+                        if sp[0] == "str":
+                            continue        # not every text form takes the suffix
+                        return [("hint:build-raised:%s" % type(err).__name__, "%r route %r raised %r" % (sp, r, err))], 0
+                    if a is not None:
+                        built.append((sp, r, a))
+    finally:
+        logging.disable(logging.NOTSET)
+    neq = 0
+    for sp, r, a in built:
+        for sp2, r2, b in built:
+            if r is None and r2 is None:
+                continue
+            if a == b:
+                neq += 1
+                try:
+                    same = hash(a) == hash(b)
+                except Exception as err:
+                    return [("hint:hash-raised:%s" % type(err).__name__, "%r@%r: %r" % (sp, r, err))], neq
+                if not same:
+                    fails.append(("hint:equal-but-hash-differs", "%r route %r == %r route %r, hashes differ" % (sp, r, sp2, r2)))
+                elif {a: 1}.get(b) != 1:
+                    fails.append(("hint:dict-miss", "%r route %r not found under the equal key %r route %r" % (sp2, r2, sp, r)))
+        if fails:
+            break
+    return fails[:3], neq
+
+
 def judge(case):
     k = case["k"]
+    if k == "hint":
+        fails, neq = check_hinted(case["groups"], case["routes"])
+        return Verdict(fails, neq > 0, ("hinted",))
     if k == "mean":
         return Verdict(check_meaning(case["sp"], case["m"], case.get("ip", False)), case["sp"][0] != "int",
                        ("mean:" + case["m"]["t"], "spelling:" + case["sp"][0]))
@@ -415,6 +481,11 @@ def run(spec, ctx):
             return dict(k="pool", groups=[[sp for sp, _ in spellings(m)] for m in ms])
         strat = st.tuples(octs, net, net).map(near)
         ctx.for_all(strat, spec["n"])
+        # the same pools with router hints attached (default settings): equal implies equal hash
+        rt = st.one_of(st.integers(0, 255).map(lambda i: ["int", i]),
+                       st.tuples(st.sampled_from(IPS[2:]), st.sampled_from(PORTS[1:])).map(lambda t: ["tuple", t[0], t[1]]))
+        hinted = st.tuples(strat, st.lists(rt, min_size=1, max_size=2, unique_by=repr)).map(lambda t: dict(k="hint", groups=t[0]["groups"], routes=t[1]))
+        ctx.for_all(hinted, max(100, spec["n"] // 4), salt=7)
     elif kind == "garbage":
         from hypothesis import strategies as st
         bad = "!#$%&()+,;<=>?[]^`{|}~ \t"
